@@ -162,5 +162,15 @@ void gv::generate(const std::string& tier, uint64_t seed) {
     stratum("values-" + k);
     if (i < 3) sample(current_op());
   }
+  // (3) rhumb lines that span more than half / more than a whole turn of longitude (the wrapped and the unrolled
+  //     longitude differ there, so an output computed from the wrong one shows up): cheap, so many of them
+  long nr = th ? 600 : 60;
+  for (long i = 0; i < nr; ++i) {
+    double lat1 = r.range(-70, 70), lon1 = r.irange(0, 3) ? r.range(-180, 180) : r.pick(std::vector<double>{179, -179, 0, 359});
+    double azi = (r.coin() ? 90 : -90) + r.range(-40, 40);
+    double s12 = (r.coin() ? 1 : -1) * r.range(1.2e7, i % 3 == 0 ? 9e7 : 3e7);
+    run("maskvalues", {"R", hx(lat1), hx(lon1), hx(azi), hx(s12), "0", std::to_string(i)});
+    stratum("values-R-long");
+  }
 }
 int main(int argc, char** argv) { return gv::main_(argc, argv); }
